@@ -32,8 +32,17 @@ Fixpoint upd_nth {A} (n:nat) (f:A->A) (l:list A) : list A :=
   | _, [] => []
   end.
 
-Definition firstz {A} (n:Z) (l:list A) := firstn (Z.to_nat n) l.
-Definition skipz {A} (n:Z) (l:list A) := skipn (Z.to_nat n) l.
+(* Z-indexed list operations, recursive on the list so that astronomically large
+   indices (times are ~6e19 ns) never materialise as unary naturals *)
+Fixpoint firstz {A} (n:Z) (l:list A) : list A :=
+  match l with [] => [] | x :: r => if 0 <? n then x :: firstz (n - 1) r else [] end.
+Fixpoint skipz {A} (n:Z) (l:list A) : list A :=
+  match l with [] => [] | x :: r => if 0 <? n then skipz (n - 1) r else l end.
+Fixpoint nthz {A} (i:Z) (l:list A) : option A :=
+  match l with [] => None | x :: r => if i =? 0 then Some x else if i <? 0 then None else nthz (i - 1) r end.
+
+Fixpoint list_eqb {A} (e:A->A->bool) (a b:list A) : bool :=
+  match a, b with [], [] => true | x::r, y::s => e x y && list_eqb e r s | _, _ => false end.
 
 (* indices of the [false] entries of a list of booleans: used by every
    correspondence runner to report which cases disagree *)
